@@ -4,6 +4,7 @@ import CV.Proofs.HttpWf4
 import CV.Proofs.HttpLex
 import CV.Proofs.HttpLexRound
 import CV.Proofs.HttpClient
+import CV.Proofs.HttpPipe
 /-
 C13 - HTTP requests are parsed identically however the stream is segmented.
 
@@ -996,5 +997,92 @@ theorem client_request_wellformed (pathOk : Bytes → Option Bytes → Bool) (q 
 /-- non-vacuity: `cReq`, `cUrl` (hypotheses `hok`, `hno`, `hlen`: the examples above) -/
 example : CV.Http.Client.parseUrl cReq.url = .ok cUrl ∧ methodOk cReq.method = true ∧
     lineRefused (reqLineOf cReq.method cUrl.path [49] [49]) = false := by decide
+
+/-! ## Requests back to back on one connection (CV/Model/HttpServerPipe.lean) -/
+
+/-- **Request sequences on one byte stream, every cutting that respects the request boundaries.**  The reads of a
+    connection are given as ONE list (no marker between the requests): when no read holds bytes of two requests -
+    the cuts inside each request being arbitrary, byte-at-a-time included - every request is dispatched exactly once,
+    in order, at the read that delivers its last byte, exactly as in one-piece-per-request delivery, and nothing stays
+    buffered at the end.  This is `keepalive_sequence` restated on the flat read sequence through `pipeAll` (the response
+    follows its request at once).  The hypothesis "no read straddles a boundary" cannot be dropped:
+    `pipe_sequence_witness`.  Full statement (false for the code): for every cutting `reads` of
+    `(msgs.map (·.1.flatten)).flatten`, `dispatched (pipeAll lex secure {} reads).2 = msgs.map (fl, hb, body)`. -/
+theorem pipe_sequence_partial (lex : Lex) (secure : Bool)
+    (msgs : List (List Bytes × Bytes × Option Bytes × Bytes))
+    (h : ∀ m ∈ msgs, CleanRequest lex secure m.1 m.2.1 m.2.2.1 m.2.2.2) :
+    pipeAll lex secure {} (msgs.map (·.1)).flatten =
+      ({}, (msgs.map fun m => List.replicate (m.1.length - 1) .wait ++ [.request m.2.1 m.2.2.1 m.2.2.2]).flatten) ∧
+    dispatched (pipeAll lex secure {} (msgs.map (·.1)).flatten).2 = msgs.map (fun m => (m.2.1, m.2.2.1, m.2.2.2)) ∧
+    (pipeAll lex secure {} (msgs.map (·.1)).flatten).1.buffered = [] := by
+  induction msgs with
+  | nil => exact ⟨rfl, rfl, rfl⟩
+  | cons m more ih =>
+    obtain ⟨hne, hs, hclean, hst, cn1, hone⟩ := h m (by simp)
+    have h1 := one_request lex secure m.1 hne hs hclean hst cn1 _ _ _ hone
+    have h2 := pipeAll_of_connReadAll lex secure m.2.1 m.2.2.1 m.2.2.2 (more.map (·.1)).flatten m.1 {} cn1 hs h1
+    obtain ⟨i1, i2, i3⟩ := ih (fun m' hm' => h m' (List.mem_cons_of_mem _ hm'))
+    simp only [List.map_cons, List.flatten_cons]
+    rw [h2]
+    refine ⟨?_, ?_, ?_⟩
+    · rw [i1]
+    · simp only [dispatched_waits, i2]
+    · exact i3
+
+example : ∀ m ∈ [(toySegs, ([71] : Bytes), some ([67] : Bytes), ([97, 98] : Bytes)),
+                 ([toyMsg], [71], some [67], [97, 98])],
+    CleanRequest toyLex false m.1 m.2.1 m.2.2.1 m.2.2.2 := by
+  intro m hm
+  simp only [List.mem_cons, List.mem_nil_iff, or_false] at hm
+  rcases hm with rfl | rfl
+  · exact ⟨by decide, by decide, by decide, by decide,
+      ⟨none, some ⟨[71], ⟨1, 1, none⟩, some [67], ⟨.val 2, false, true, false⟩⟩⟩, by decide⟩
+  · exact ⟨by decide, by decide, by decide, by decide,
+      ⟨none, some ⟨[71], ⟨1, 1, none⟩, some [67], ⟨.val 2, false, true, false⟩⟩⟩, by decide⟩
+
+/-- `G CRLF H CRLF CRLF` : a request without body -/
+def toyGet : Bytes := [71, 13, 10, 72, 13, 10, 13, 10]
+
+/-- **A read that holds the end of request k and the start of request k+1 breaks it** (the code is not a pipelining
+    server): (1) two bodyless requests in one read - ONE request is dispatched, with the bytes of the second as its
+    body; (2) a Content-Length request followed by the next one in the same read - its body is extended by them;
+    (3) a chunked request followed by the next one - the chunked request is right, the next one is lost with the
+    parser; while one-piece-per-request delivery dispatches two requests in each case. -/
+theorem pipe_sequence_witness :
+    dispatched (pipeAll toyLex false {} [toyGet ++ toyGet]).2 = [([71], some [72], toyGet)] ∧
+    dispatched (pipeAll toyLex false {} [toyGet, toyGet]).2 = [([71], some [72], []), ([71], some [72], [])] ∧
+    dispatched (pipeAll toyLex false {} [toyMsg ++ toyGet]).2 = [([71], some [67], [97, 98] ++ toyGet)] ∧
+    dispatched (pipeAll toyLex false {} [toyMsg, toyGet]).2 = [([71], some [67], [97, 98]), ([71], some [72], [])] ∧
+    dispatched (pipeAll toyLex false {} [toyChunked ++ toyGet]).2 = [([71], some [84], [97, 98])] ∧
+    dispatched (pipeAll toyLex false {} [toyChunked, toyGet]).2 = [([71], some [84], [97, 98]), ([71], some [72], [])] := by
+  refine ⟨by decide, by decide, by decide, by decide, by decide +kernel, by decide +kernel⟩
+
+/-- **What is kept after a dispatch: nothing.**  Whatever the tables held and whatever the read brought, a read that
+    fires a `request` event leaves no parser for the socket - no byte is buffered for a following request - and,
+    once the response is written, the entries of the socket are those of a fresh connection.  So every byte that
+    followed the end of the dispatched request in that read is either inside its `body` or gone. -/
+theorem pipe_dispatch_discards (lex : Lex) (secure : Bool) (cn cn' : Conn) (d fl : Bytes) (hb : Option Bytes)
+    (body : Bytes) (h : connRead lex secure cn d = (cn', .request fl hb body)) :
+    cn'.parser = none ∧ cn'.buffered = [] ∧ pipeRead lex secure cn d = ({}, .request fl hb body) := by
+  obtain ⟨req, hcn⟩ := connRead_request_drops h
+  refine ⟨by rw [hcn], by rw [hcn]; rfl, pipeRead_request h⟩
+
+example : connRead toyLex false {} (toyGet ++ toyGet) =
+    (⟨none, some ⟨[71], ⟨1, 1, none⟩, some [72], ⟨.absent, false, true, false⟩⟩⟩, .request [71] (some [72]) toyGet) := by
+  decide
+
+/-- **Where the next request starts: at the next READ, not at the next request boundary.**  For arbitrary reads
+    (any cutting of any stream): after a read that dispatches, the remaining reads are served exactly as on a fresh
+    connection.  Together with `pipe_dispatch_discards` this determines the dispatched list of every cutting of a
+    pipelined stream, and shows why it depends on the cutting. -/
+theorem pipe_restart (lex : Lex) (secure : Bool) (cn cn' : Conn) (d fl : Bytes) (hb : Option Bytes) (body : Bytes)
+    (ds : List Bytes) (h : connRead lex secure cn d = (cn', .request fl hb body)) :
+    pipeAll lex secure cn (d :: ds) =
+      ((pipeAll lex secure {} ds).1, .request fl hb body :: (pipeAll lex secure {} ds).2) := by
+  simp only [pipeAll, pipeRead_request h]
+
+example : pipeAll toyLex false {} [toyGet ++ [71, 13], [10, 72, 13, 10, 13, 10]] =
+    ({}, [.request [71] (some [72]) [71, 13], .err400NoHost]) := by
+  decide
 
 end CV.C13
